@@ -154,5 +154,34 @@ def openSyncAndWait (φ : Assign) (r : R) : R × Option Bool :=
   | (r1, .ok) => let x := syncAndWaitAck φ r1; (x.1, some x.2)
   | (r1, _) => (r1, none)
 
+/-! ### run-time reset of the local state (`DB.ResetLocalState` → `baselinePending`, /repo/db.go newSyncExecutor) -/
+
+/-- replica state plus the `db.baselinePending` flag -/
+structure B where
+  r : R
+  pending : Bool
+deriving Repr
+
+/-- `ResetLocalState`: the local level-0 files are removed (the database position reads 0), the replica's
+    cached position is kept, the baseline obligation is raised. -/
+def resetLocal (b : B) : B := ⟨{ b.r with dbPos := 0 }, true⟩
+
+/-- the baseline step at the head of every `DB.Sync`: `if db.baselinePending.Load() {
+    checkDatabaseBehindReplica …; db.baselinePending.Store(false) }` — the flag is cleared only after the
+    check succeeded; an error returns before the `Store(false)`. -/
+def baselineStep (φ : Assign) (b : B) : B × InitRes :=
+  if b.pending then
+    match initCheck φ b.r with
+    | (r1, .ok) => (⟨r1, false⟩, .ok)
+    | (r1, e) => (⟨r1, true⟩, e)
+  else (b, .ok)
+
+/-- the defective variant `if db.baselinePending.Swap(false) { … }`: the flag is consumed first -/
+def baselineStepClearFirst (φ : Assign) (b : B) : B × InitRes :=
+  if b.pending then
+    match initCheck φ b.r with
+    | (r1, e) => (⟨r1, false⟩, e)
+  else (b, .ok)
+
 end ReplicaSync
 end Litestream
